@@ -150,7 +150,7 @@ class Locality:
 
 
 # ---------------------------------------------------------------- hook oracle
-USABLE = ("ok", "absent", "dir", "dangling", "loop")
+USABLE = ("ok", "absent", "dir", "dangling", "loop")  # env also: "nouser", "empty" (both name no file)
 BROKEN = ("decode", "unreadable", "eio", "noaccess")
 LAYERS = ("user", "project", "env")
 LAYER_TEXT = {"user": "allow frobu\n", "project": "allow frobp\n", "env": "allow frobe\n"}
@@ -174,10 +174,8 @@ def wire_layer(layer, kind):
     if kind == "eio":
         return ["oserror"]
     if kind == "noaccess":
-        return ["other"] if layer == "project" else ["permission"]
-    if kind == "nouser":
-        return ["other"]
-    return ["absent"]
+        return ["permission"]  # is_file()/stat denied: ConfigError at every layer (project walk included)
+    return ["absent"]  # dir, dangling, loop, empty, and DIPPY_CONFIG=~nosuchuser/x (names no file)
 
 
 def build_layout(root, layout):
@@ -317,7 +315,7 @@ def hook_check(out, model, home, tier, rng, only=None):
     finally:
         shutil.rmtree(base, ignore_errors=True)
     for layout, res in zip(layouts, results):
-        broken = [l for l in LAYERS if layout[l] in BROKEN or layout[l] == "nouser"]
+        broken = [l for l in LAYERS if layout[l] in BROKEN]
         stage = model.call(["cfg_stage", lib.opt(home), [wire_layer(l, layout[l]) for l in LAYERS]], ct.ORACLES)[0]
         out.case(["hook", layout], nontrivial=bool(broken))
         out.count("hook_layout", "broken" if broken else "usable")
